@@ -957,3 +957,15 @@ static void __attribute__((destructor)) rt_dtor(void) {
   fprintf(f, "VRT %s\n", buf);
   fclose(f);
 }
+
+/* ------------------------------------------------------------------ DAG Recorder clock hook */
+static _Atomic unsigned long long g_dr_vclock;       /* 0 = real time stamp counter */
+static _Atomic unsigned long long g_dr_vclock_reads;
+void myth_verif_dr_vclock_set(unsigned long long v) { atomic_store(&g_dr_vclock, v); }
+unsigned long long myth_verif_dr_vclock_reads(void) { return atomic_load(&g_dr_vclock_reads); }
+unsigned long long myth_verif_dr_clock(unsigned long long real_tsc) {
+  unsigned long long v = atomic_load_explicit(&g_dr_vclock, memory_order_relaxed);
+  if (!v) return real_tsc;
+  atomic_fetch_add_explicit(&g_dr_vclock_reads, 1, memory_order_relaxed);
+  return v;
+}
